@@ -62,7 +62,7 @@ def check_policy(ctx, case):
         def on_id(event):
             if handler.get("raises"):
                 raise ValueError("identity backend down")
-            return bool(handler.get("verdict")), (b"token" if handler.get("response") else None)
+            return handler.get("verdict"), (b"token" if handler.get("response") else None)
 
         extra.append((evt.EVT_USER_ID, on_id))
 
@@ -75,7 +75,7 @@ def check_policy(ctx, case):
         raise HarnessError(f"raw peer failed: {peer.error}")
     near = case.get("near", "exact")
     ctx.note({k: v for k, v in case.items()}, nontrivial=near not in ("exact", "other"), classes=["accept" if accept else "reject", "near:" + near,
-             "id:" + (str(ident["type"]) if ident else "none"), "handler:" + ("unbound" if handler is None else ("raises" if handler.get("raises") else str(bool(handler.get("verdict"))))),
+             "id:" + (str(ident["type"]) if ident else "none"), "handler:" + ("unbound" if handler is None else ("raises" if handler.get("raises") else repr(handler.get("verdict")))),
              "calling-list" if req_calling else "no-calling-list", "called-check" if case["require_called"] else "no-called-check"])
     if out["how"] == "budget":
         ctx.inconclusive += 1
@@ -143,7 +143,8 @@ def strategy(ctx):
         if draw(st.booleans()):
             t = draw(st.integers(1, 5))
             ident = {"type": t, "rsp": draw(st.integers(0, 1)), "primary": draw(st.binary(min_size=1, max_size=12)), "secondary": draw(st.binary(min_size=1 if t == 2 else 0, max_size=8))}
-        handler = draw(st.sampled_from([None, {"verdict": True}, {"verdict": True, "response": True}, {"verdict": False}, {"raises": True}]))
+        handler = draw(st.sampled_from([None, {"verdict": True}, {"verdict": True, "response": True}, {"verdict": False}, {"raises": True},
+                                        {"verdict": None}, {"verdict": 0}, {"verdict": ""}]))  # falsy non-bool verdicts are not positive verdicts
         near = l1 if l1 not in ("exact",) else l2
         if l2 in ("padding", "case", "embedded-space") and req:
             near = l2
